@@ -13,6 +13,7 @@ SELECT = {
     "C07": r"^full-n8|^tags-(s|sb|bh|none)-",
     "C08": r"^bundle-(0|1|12|5)-c8$|^notbundle$",
     "C14": r".",
+    "C04": r"^hashA-(sub_x|a.?~)|^enumB-(c1|s1_y)|^hashC-(vol~|fx_m)|^linD-a",
 }
 
 
@@ -46,9 +47,9 @@ def build(ctx):
                                descr={"tags": tags, "part": "constructor with %d value-carrying arguments" % len([c for c in tags if c not in "TFNI"]), "host_harness": "C01"}))
     ctx.units = sorted(set(units))
     ctx.functions = sorted(set(funcs))
-    ctx.bounds = {"inputs": "those of the host harnesses (C01, C05, C06, C07, C08, C14): every input within their bounds", "monitor": "malloc/calloc/realloc/free/pthread_mutex_lock and operator new/delete (incl. new[]) stubs assert !verif_rt_section"}
+    ctx.bounds = {"inputs": "those of the host harnesses (C01, C04, C05, C06, C07, C08, C14): every input within their bounds", "monitor": "malloc/calloc/realloc/free/pthread_mutex_lock and operator new/delete (incl. new[]) stubs assert !verif_rt_section"}
     ctx.assumptions = ["the realtime section starts after construction (ThreadLink constructor, static port objects) and covers every library call of the host harness",
                        "libc internals are stubs; stack growth (VLAs) is not heap"]
     ctx.stubs = ["stubs/nd_cbmc.c (malloc family, pthread_mutex_lock)", "stubs/cxxrt.c (operator new/delete)", "tools/ll2c.py byte-allocation lowering"]
-    ctx.outside = ["dispatch through port trees (Ports::dispatch over tables, default handlers, location tracking): tables could not be constructed under cbmc (see C04 in not_applicable)",
+    ctx.outside = ["dispatch is covered for C04's directly constructed tables only (recording callbacks; the library's own parameter-port callbacks are covered separately through C14)",
                    "RtData::reply/broadcast default forwarding with 8 KiB stack buffers (the recording subclass overrides the variadic forms)", "inputs beyond the host harness bounds"]
